@@ -400,7 +400,7 @@ class T_pis:
         if bool(got) != want:
             return (f"exact run: point_in_simplex = {bool(got)} but barycentric coordinates {[str(x) for x in al]} "
                     f"(eps = 1e-8) say {want}")
-        if margin > F(1, 10 ** 11):
+        if margin > F(1, 10 ** 9):   # doubles decide robustly only away from the thresholds
             got = Tm.point_in_simplex(np.array(fl(q)), fl(P))
             if bool(got) != want:
                 return f"float run: point_in_simplex = {bool(got)} but barycentric coordinates {[float(x) for x in al]} say {want}"
@@ -602,6 +602,12 @@ class T_l1_triangle:
         nv = [0, 0, 2, 3][(k // 3) % 4]
         ys = [[rq(rng, kind) for _ in range(nv)] if nv else rq(rng, kind) for _ in range(4)]
         mask = [(1, 1, 1, 1), (0, 1, 1, 1), (1, 1, 1, 0), (0, 1, 1, 0)][(k // 12) % 4]
+        if nv:   # collinear lifted triangles: simplex_volume_in_embedding documents a ValueError there
+            pts = [[x, *y] for x, y, m in zip(xs, ys, mask) if m]
+            for i in range(len(pts) - 2):
+                sc = max(max(abs(v) for q in pts[i:i + 3] for v in q), F(1))
+                if gram_vol2(pts[i:i + 3]) <= F(1, 10 ** 6) * sc ** 4:
+                    return None
         xs = [x if m else None for x, m in zip(xs, mask)]
         ys = [y if m else None for y, m in zip(ys, mask)]
         fac = [F(rng.randint(0, 20), 10), F(rng.randint(0, 10), 100), F(rng.randint(0, 10), 100)] if k % 2 else None
@@ -713,7 +719,13 @@ class T_nd_losses:
             if rng.random() < 0.3:
                 nb.append(None)
             else:
-                nb.append(([rq(rng, kind) for _ in range(d)], [rq(rng, kind) for _ in range(nv)] if nv else rq(rng, kind)))
+                cand = ([rq(rng, kind) for _ in range(d)], [rq(rng, kind) for _ in range(nv)] if nv else rq(rng, kind))
+                # simplex_volume_in_embedding documents a ValueError for coplanar vertices: keep the lifted
+                # simplex+neighbour non-degenerate (a flat one is outside the property's domain)
+                tl = lambda v: list(v) if isinstance(v, list) else [v]  # noqa: E731
+                lifted = [list(p) + tl(v) for p, v in zip(P, vals)] + [list(cand[0]) + tl(cand[1])]
+                scale = max(max(abs(x) for q in lifted for x in q), F(1))
+                nb.append(cand if gram_vol2(lifted) > F(1, 10 ** 6) * scale ** (2 * (d + 1)) else None)
         return {"P": P, "vals": vals, "nb": nb}
 
     @staticmethod
